@@ -94,6 +94,20 @@ def fam_C08(tier, seed):
         i = b.ind(icls, name=icls, tasks=[a, d])
         b.obj(ocls, ind=i, kind="maximize" if icls == "MinimumStartTime" else "minimize")
         ps.append(b.done())
+    # utilisation WITHOUT a user horizon: the percentage is relative to the horizon the solution reports; a target on
+    # the utilisation makes the horizon differ from the end of the last task
+    for d1, tgt, opt in itertools.product((1, 2), (None, 25, 50, 100), (False, True)):
+        b = PB(5, user_horizon=False, tag="utilisation-free-horizon")
+        a = b.task("A", "F", dur=d1)
+        c = b.task("B", "F", dur=1, optional=opt)
+        w = b.worker("W")
+        b.require(a, worker=w)
+        b.require(c, worker=w)
+        i = b.ind("IndicatorResourceUtilization", res=res_worker(w))
+        b.ind("IndicatorNumberTasksAssigned", res=res_worker(w))
+        if tgt is not None:
+            b.con("IndicatorTarget", ind=i, value=tgt)
+        ps.append(b.done())
     # the same indicators on a cumulative worker (tasks counted once, cost spread over the units)
     for H, cost, size, opt in itertools.product((4, 5), (None, 2, 3), (2, 3), (False, True)):
         b = PB(H, tag="cumulative-indicators")
